@@ -85,7 +85,8 @@ fn draw_cmd(k: u32, pending: bool, payload: &mut u64) -> SubCmd {
 		55..=59 => SubCmd::SendTimeout(*payload, 5),
 		60..=67 => SubCmd::CloneSink,
 		68..=75 => SubCmd::DropClone,
-		76..=85 => SubCmd::CheckClosed,
+		76..=82 => SubCmd::CheckClosed,
+		83..=85 => SubCmd::AwaitClosed(5),
 		86..=92 => SubCmd::Return(0),
 		_ => SubCmd::Return(1),
 	}
@@ -469,9 +470,9 @@ fn check_c04(v: &View) {
 						nontrivial = true;
 					}
 				}
-				for e in evs.iter().filter(|e| e.what == "is_closed" && e.invoked > t) {
+				for e in evs.iter().filter(|e| (e.what == "is_closed" || e.what == "closed-future") && e.invoked > t) {
 					if !e.ok {
-						rt::violate(P, "not-closed-after-close", why.to_string(), format!("subscription {} was closed ({why}) at #{t}; is_closed() at #{} returned false", s.sub_id, e.invoked));
+						rt::violate(P, "not-closed-after-close", format!("{why}:{}", e.what), format!("subscription {} was closed ({why}) at #{t}; {} invoked at #{} did not report closed", s.sub_id, e.what, e.invoked));
 					}
 				}
 			} else if v.peer_closed[ci].is_none() && v.stop_stamp.is_none() {
@@ -600,7 +601,7 @@ fn check_c06(v: &View) {
 		let ci = v.conn_of(s);
 		let Some(acc) = accept_ok(s) else { continue };
 		let evs = s.events.lock().unwrap();
-		for e in evs.iter().filter(|e| e.what == "is_closed" && e.ok) {
+		for e in evs.iter().filter(|e| (e.what == "is_closed" || e.what == "closed-future") && e.ok) {
 			// closed reported: is there a cause before e.invoked?
 			let unsub = v.unsub_calls.iter().filter(|u| u.conn == ci && u.target == s.sub_id).any(|u| v.unsub_end(ci, &u.call_id).is_some_and(|x| x.stamp < e.returned && x.response.as_deref().is_some_and(|r| r.contains("\"result\":true"))));
 			let conn_ending = v.peer_closed[ci].is_some_and(|p| p < e.returned) || v.stop_stamp.is_some_and(|p| p < e.returned) || v.conn_gone[ci].is_some_and(|p| p < e.returned);
